@@ -211,7 +211,7 @@ def run_lines(binary, args, lines, timeout=900, shards=None):
         restarts = 0
         while todo:
             p = subprocess.Popen([binary] + list(args), stdin=subprocess.PIPE, stdout=subprocess.PIPE,
-                                 stderr=subprocess.DEVNULL, text=True)
+                                 stderr=subprocess.DEVNULL, text=True, errors="replace")
             try:
                 o, _ = p.communicate("\n".join(lines[i] for i in todo) + "\n", timeout=timeout)
             except subprocess.TimeoutExpired:
